@@ -122,7 +122,12 @@ def module_constants(mod: ModuleSrc) -> dict[str, object]:
             try:
                 out[st.targets[0].id] = ast.literal_eval(st.value)
             except Exception:
-                pass
+                v = st.value  # " " * 4 and the like
+                if isinstance(v, ast.BinOp) and isinstance(v.op, ast.Mult) and isinstance(v.left, ast.Constant) and isinstance(v.right, ast.Constant):
+                    try:
+                        out[st.targets[0].id] = v.left.value * v.right.value
+                    except Exception:
+                        pass
         elif isinstance(st, ast.AnnAssign) and isinstance(st.target, ast.Name) and st.value is not None:
             try:
                 out[st.target.id] = ast.literal_eval(st.value)
